@@ -99,6 +99,22 @@ CLAIMED = {
          "Renderer-level invariance proved; `inside` expansion proved for in-range bounds with a negated corner; emitter walker validated.",
          "Trusted: Lean kernel; mini SV lexer; token-stream equality stands in for behavioural equality.",
          "DESIGN.md §4 C26"),
+ "C19": ("proof", "Lean 4 proofs of the rewrite rules the converter relies on (Kogge–Stone/Sklansky = ripple carry at every width, tree re-association over any permutation, constant propagation over a line-by-line model of worklist::simplify for all 22 cell kinds with tables regenerated from source, fusion tables, mux rewrites, counter rebuild) + translation validation per netlist: the REAL netlist is serialised and evaluated by the Lean netlist semantics (and an independent Rust evaluator) against the 2-state interpreter on random stimuli, for 4 libraries and extreme RamConfig thresholds",
+         "The converter itself is validated per netlist, not verified; the rules are proved. Eight recorded defect classes of the synthesizer (blocking semantics in always_ff, '1 reset value, context width/signedness of operands, >>> fill, wide ternary condition, constant folding) keyed by verified signature (shrunk expression still fails and its rewritten twin agrees).",
+         "Trusted: Lean kernel; netlist meaning (settle/clockEdge) is my definition, cross-checked with an independent evaluator; tools/gen.py cell/fuse tables; 2-state interpreter as RTL reference.",
+         "DESIGN.md §4 C19"),
+ "C20": ("proof", "Lean 4 proofs: decidable well-formedness (one driver per used net, in-range ids, arity from the regenerated cell table, acyclic by rank certificate) means what it says; the `while changed` timing sweep as coded terminates and computes longest path depth / maximal arrival (declarative PathTo/IsLongest spec); area report = exact sums; negated `reported depth = longest path` with witness and partial theorem + correspondence (wf, compute_area, compute_timing of every real netlist vs model, exact naturals in 1e-9 units) + independent wf oracle",
+         "All netlists/libraries in the model; f64 sums compared with relative tolerance 1e-9; one recorded finding (reported depth is the depth at the max-arrival endpoint).",
+         "Trusted: Lean kernel; tools/gen.py (cell kinds, library numbers); log2-based SRAM access delay passed per block.",
+         "DESIGN.md §4 C20"),
+ "C33": ("proof", "Lean 4 proofs: any swap schedule between two ≈-agreeing, ≈-congruent step functions yields a ≈-equal run (trace induction); the same at the code's dispatch granularity (settle_comb / event statements / comb_dirty) for every gate except the first-settle gap, which is characterised exactly and negated on a concrete machine; constant cone evaluated once ≡ every settle + oracle: deterministic hand-over at every dispatch attempt k (hook verif_swap::set_ready_at) in child processes vs synchronous C, JIT and interpreter runs",
+         "Schedules unbounded; the Hyp obligations about a design's two engines are checked per design (k=0 vs never vs references), not proved of the C emitter; one recorded finding (first-settle gap, k = 1).",
+         "Trusted: Lean kernel; hook H1 (8782ed3); cc; the hand model of settle_comb's dispatch order.",
+         "DESIGN.md §4 C33"),
+ "C34": ("proof", "Lean 4 proofs: cache hit = miss for every test sequence under one analyzer IR (negated across IRs), relocation of a base-relative confined chunk commutes with shifting memory (negated with an aliased operand), recurring-set computation is order independent and matches its spec, first-seer fallback order dependent (negation) + oracle: every test alone vs in several orders through one ProtoModuleCache / DUT reuse with and without the recurring set, and CLI `veryl test` with VERYL_DUT_REUSE=1 vs 0",
+         "All sequences/hierarchies in the model; walker transcription by hand; traces compared per test on generated suites sharing submodules with different parameters and layouts.",
+         "Trusted: Lean kernel; one-body-per-component hierarchy model; VERYL_COMB_LAYOUT=0 for offset predictions.",
+         "DESIGN.md §4 C34"),
  "C21": ("proof", "Lean 4 proofs: NPN canonicalisation spec for every 4-input table by a generic fold-minimum lemma over the 768 transforms (permutation table regenerated from npn4.rs; group closure; class invariance), pattern transformation and library-entry spec, soundness of mk_and / cut replacement / the whole rewrite pass / lower_cell for all cell kinds / tech-map templates + correspondence (hxaig npn exhaustive over all 65536 tables, library dump re-evaluated in Lean, real rewrite reproduced node for node) + oracle (independent union-find class minima; sink functions before/after rewrite+techmap by exhaustive/random vectors)",
          "20 full-strength theorems; the feature did not compile on the pinned tree (repaired, 3bc2a0b); two recorded findings: the AIG round trip deletes logic on FF control pins and on RAM pins.",
          "Trusted: Lean kernel; tools/gen.py (tables, lower_cell translator); hash-cons/net_edge functional; pattern library is a model input dumped from the running process.",
